@@ -247,7 +247,13 @@ def handleMX (ins outs : List J) : Verdict :=
       let refs := if isNatR a && isNatR b && a + b ≤ 170 then
           [("beta", closeV g (.fin (Special.betaInt a.floor.toNat b.floor.toNat)) 0 (1 / 10000000000), s!"go={g.str} exact={ratStr (Special.betaInt a.floor.toNat b.floor.toNat)}")]
         else []
-      verdictOf ("nt beta" ++ (if refs.isEmpty then " symmetry-only" else " reference")) ([("beta-symmetric", symOk, s!"B(a,b)={g.str} B(b,a)={sw.str}")] ++ refs)
+      -- general reference: exp(log Γ(a) + log Γ(b) − log Γ(a+b)) from the Stirling enclosure, relative 1e-9
+      -- (values below the float range may round to 0 / a subnormal)
+      let e := I.exp (Special.lbetaI a b)
+      let gen := if a > 0 && b > 0 then
+          [("beta", inTol g e (1 / pow2 1070) (1 / 1000000000), s!"a={ratStr a} b={ratStr b} go={g.str} general reference {iStr e}")]
+        else []
+      verdictOf ("nt beta" ++ (if refs.isEmpty then " general-reference" else " reference")) ([("beta-symmetric", symOk, s!"B(a,b)={g.str} B(b,a)={sw.str}")] ++ refs ++ gen)
     | _, _, _, _ => .badOp "mx beta: parse"
   | [.atom "sign", xJ], [gJ] =>
     match xJ.flt?, gJ.flt? with
